@@ -1,5 +1,7 @@
 import LlgoVerif.Lemmas.GoTypeInj
 import LlgoVerif.Lemmas.Iface
+import LlgoVerif.Lemmas.DynHash
+import LlgoVerif.Lemmas.DynLaws
 /-!
 # C07 — dynamic type identity and interface satisfaction coincide with Go's rules
 
@@ -242,5 +244,263 @@ theorem matchesClosure_fixed_spec (t v : Desc) :
   by_cases h1 : t.id = v.id
   · simp [h1]
   · cases hc : v.closure <;> cases hn : t.named <;> cases hm : v.named <;> simp [h1, hc, hn, hm]
+
+/-! ## interface `==` and interface-keyed maps: `EfaceEqual`, the `Equal` functions and `typehash` (Model/DynEq.lean)
+
+Models: `efaceEqual` = z_face.go `EfaceEqual`; `callEq`/`eqFields`/`eqElems` = alg.go `memequal*`, `f32equal` … `interequal`,
+`nilinterequal` (`efaceeq`/`ifaceeq`), `structequal`, `arrayequal`; `typehash`/`nilinterhash`/`interhash` = alg.go;
+`descOf` = what ssa/abi `EqualName`/`IsRegularMemory`/`Size`/`Kind` and ssa/abitype.go `directIfaceType` put into the
+descriptor of a type.  Specification: `Spec/DynEq.lean` (`goEq`/`ifaceEq` = Go's `==`, `comparable`, `valOf` = the Go value
+a memory image denotes, `fits` = well-formed image).  The `memhash` routines are PARAMETERS (`H`), `rnd` is `fastrand`. -/
+
+section dyn
+open LlgoVerif.DynEq
+
+/-- **Full statement**: on all well-formed images `EfaceEqual` computes Go's `==` on interface values.  FALSE on the current
+    code (and under the reference toolchain alike) for a direct-interface type with a blank pointer field. -/
+def efaceEqual_spec : Prop :=
+  ∀ v u : Obj Ty, fits (.iface 0 0) v = true → fits (.iface 0 0) u = true →
+    efaceEqual descOf v u = ifaceEq (valOf (.iface 0 0) v) (valOf (.iface 0 0) u)
+
+/-- `struct{ _ *T }` -/
+def blankPtrStruct : Ty := .struct 8 (.cons 0 0 (.ptr .pointer 0) .nil)
+/-- `any(struct{ _ *T }{…})` whose blank field holds the pointer `w` (only `unsafe` stores can put one there) -/
+def blankPtrVal (w : UInt64) : Obj Ty :=
+  .eface 0 blankPtrStruct w (.seq (.cons [] (.bytes (le64 w.toNat)) .nil) [])
+
+/-- Go: blank fields are not compared, the two values are equal; `EfaceEqual` compares the data words. -/
+theorem efaceEqual_spec_counterexample : ¬ efaceEqual_spec := by
+  intro h
+  have e := h (blankPtrVal 1) (blankPtrVal 2) (by decide) (by decide)
+  have e1 : efaceEqual descOf (blankPtrVal 1) (blankPtrVal 2) = .ok false := by rfl
+  have e2 : ifaceEq (valOf (.iface 0 0) (blankPtrVal 1)) (valOf (.iface 0 0) (blankPtrVal 2)) = .ok true := by rfl
+  rw [e1, e2] at e
+  cases e
+
+/-- **interface `==` is Go's `==`**: for ALL well-formed images whose dynamic types (at any depth) are not direct-interface
+    types with a blank pointer field, `EfaceEqual` returns / panics exactly as the specification `ifaceEq` does — every
+    type (scalars, floats, complex, strings, pointers, channels, arrays, structs with blank fields and padding, nested
+    interfaces, defined types), every value, every padding content; by mutual induction over memory images. -/
+theorem efaceEqual_spec_partial (v u : Obj Ty) (hv : fits (.iface 0 0) v = true) (hu : fits (.iface 0 0) u = true)
+    (hok : okDyn v = true) :
+    efaceEqual descOf v u = ifaceEq (valOf (.iface 0 0) v) (valOf (.iface 0 0) u) :=
+  efaceEqual_spec_of_okDyn v u hv hu hok
+
+/-- `struct{ f float64; s string }` with padding-free layout -/
+def exStruct : Ty := .struct 24 (.cons 1 0 (.basic .float64) (.cons 2 8 (.basic .string) .nil))
+def exVal (f : Nat) (p : Nat) : Obj Ty :=
+  .eface 7 exStruct 0 (.seq (.cons [] (.bytes (leBytes 8 f)) (.cons [] (.str p [104, 105]) .nil)) [])
+
+example : fits (.iface 0 0) (exVal 0 1) = true ∧ fits (.iface 0 0) (exVal (2^63) 2) = true ∧ okDyn (exVal 0 1) = true := by
+  decide
+
+/-- the same dynamic type, `+0`/`-0` and two different string headers over equal bytes: equal -/
+example : efaceEqual descOf (exVal 0 1) (exVal (2^63) 2) = .ok true := by rfl
+
+theorem ifaceEq_idyn (t : Ty) (x : V) (u : Ty) (y : V) :
+    ifaceEq (.idyn t x) (.idyn u y) =
+      if t ≠ u then .ok false else if (!comparable t) = true then .error .uncomparable else goEq t x y := by
+  simp only [ifaceEq, goEq]
+
+/-- **true iff identical dynamic types and equal dynamic values (or both nil)** -/
+theorem ifaceEq_true_iff (a b : V) :
+    ifaceEq a b = .ok true ↔
+      (a = .inil ∧ b = .inil) ∨ ∃ t x y, a = .idyn t x ∧ b = .idyn t y ∧ comparable t = true ∧ goEq t x y = .ok true := by
+  cases a with
+  | idyn t x =>
+    cases b with
+    | idyn u y =>
+      rw [ifaceEq_idyn]
+      constructor
+      · intro h
+        right
+        by_cases htu : t = u
+        · subst htu
+          by_cases hc : comparable t = true
+          · simp [hc] at h
+            exact ⟨t, x, y, rfl, rfl, hc, h⟩
+          · have hc' : comparable t = false := by simpa using hc
+            simp [hc'] at h
+        · simp [htu] at h
+      · intro h
+        rcases h with ⟨h1, _⟩ | ⟨t', x', y', h1, h2, hc, hg⟩
+        · cases h1
+        · cases h1; cases h2
+          simp [hc, hg]
+    | word _ | pair _ _ | str _ | opq | inil | agg _ | skip | bad => simp [ifaceEq, goEq]
+  | inil => cases b <;> simp [ifaceEq, goEq]
+  | word _ => cases b <;> simp [ifaceEq, goEq, under]
+  | pair _ _ => cases b <;> simp [ifaceEq, goEq, under]
+  | str _ => cases b <;> simp [ifaceEq, goEq, under]
+  | agg _ => cases b <;> simp [ifaceEq, goEq, under]
+  | opq => cases b <;> simp [ifaceEq, goEq]
+  | skip => cases b <;> simp [ifaceEq, goEq]
+  | bad => cases b <;> simp [ifaceEq, goEq]
+
+/-- **it panics exactly when the dynamic types are identical and not comparable** (or the comparison of the dynamic values
+    itself panics: an interface-typed field holding such a value); in particular never when the types differ -/
+theorem ifaceEq_panics_iff (a b : V) :
+    ifaceEq a b = .error .uncomparable ↔
+      ∃ t x y, a = .idyn t x ∧ b = .idyn t y ∧ (comparable t = false ∨ goEq t x y = .error .uncomparable) := by
+  cases a with
+  | idyn t x =>
+    cases b with
+    | idyn u y =>
+      rw [ifaceEq_idyn]
+      constructor
+      · intro h
+        by_cases htu : t = u
+        · subst htu
+          by_cases hc : comparable t = true
+          · simp [hc] at h
+            exact ⟨t, x, y, rfl, rfl, Or.inr h⟩
+          · have hc' : comparable t = false := by simpa using hc
+            exact ⟨t, x, y, rfl, rfl, Or.inl hc'⟩
+        · simp [htu] at h
+      · intro h
+        rcases h with ⟨t', x', y', h1, h2, hc⟩
+        cases h1; cases h2
+        rcases hc with hc | hg
+        · simp [hc]
+        · by_cases hc : comparable t = true
+          · simp [hc, hg]
+          · have hc' : comparable t = false := by simpa using hc
+            simp [hc']
+    | word _ | pair _ _ | str _ | opq | inil | agg _ | skip | bad => simp [ifaceEq, goEq]
+  | inil => cases b <;> simp [ifaceEq, goEq]
+  | word _ => cases b <;> simp [ifaceEq, goEq, under]
+  | pair _ _ => cases b <;> simp [ifaceEq, goEq, under]
+  | str _ => cases b <;> simp [ifaceEq, goEq, under]
+  | agg _ => cases b <;> simp [ifaceEq, goEq, under]
+  | opq => cases b <;> simp [ifaceEq, goEq]
+  | skip => cases b <;> simp [ifaceEq, goEq]
+  | bad => cases b <;> simp [ifaceEq, goEq]
+
+theorem ifaceEq_types_differ (t u : Ty) (x y : V) (h : t ≠ u) : ifaceEq (.idyn t x) (.idyn u y) = .ok false := by
+  simp [ifaceEq, goEq, h]
+
+example : (Ty.named 1 (.basic .int32)) ≠ Ty.basic .int32 := by decide
+
+/-- `a == b` and `b == a` agree, results and panics alike -/
+theorem ifaceEq_symm (a b : V) : ifaceEq a b = ifaceEq b a := goEq_symm a (.iface 0 0) b
+
+theorem efaceEqual_symm (v u : Obj Ty) (hv : fits (.iface 0 0) v = true) (hu : fits (.iface 0 0) u = true)
+    (hokv : okDyn v = true) (hoku : okDyn u = true) :
+    efaceEqual descOf v u = efaceEqual descOf u v := by
+  rw [efaceEqual_spec_of_okDyn v u hv hu hokv, efaceEqual_spec_of_okDyn u v hu hv hoku]
+  exact ifaceEq_symm _ _
+
+example : fits (.iface 0 0) (exVal 5 1) = true ∧ okDyn (exVal 5 1) = true := by decide
+
+/-- **reflexive except through NaN** (and uncomparable dynamic types): `reflOK` = no NaN in a compared position, every
+    dynamic type inside comparable -/
+theorem ifaceEq_refl (a : V) (h : reflOK (.iface 0 0) a = true) : ifaceEq a a = .ok true := goEq_refl a (.iface 0 0) h
+
+example : reflOK (.iface 0 0) (valOf (.iface 0 0) (exVal 5 1)) = true := by decide
+
+/-- `var x any = math.NaN(); x == x` is false -/
+theorem ifaceEq_nan_counterexample :
+    ifaceEq (.idyn (.basic .float64) (.word 0x7ff8000000000001)) (.idyn (.basic .float64) (.word 0x7ff8000000000001)) = .ok false := by
+  rfl
+
+theorem efaceEqual_refl (v : Obj Ty) (hv : fits (.iface 0 0) v = true) (hok : okDyn v = true)
+    (h : reflOK (.iface 0 0) (valOf (.iface 0 0) v) = true) : efaceEqual descOf v v = .ok true := by
+  rw [efaceEqual_spec_of_okDyn v v hv hv hok]
+  exact ifaceEq_refl _ h
+
+/-- **the compiler leaves `Equal` nil exactly for the types Go cannot compare** (`EqualName`, all types) -/
+theorem equal_nil_iff_uncomparable (t : Ty) : (descOf t).c.equal = none ↔ comparable t = false := by
+  rw [descOf_c]; exact equalName_none_iff t
+
+variable (H : Hashers) (rnd : Nat → UInt32)
+
+/-- **`a == b → hash a = hash b`**, for EVERY comparable key type `K` (the `Hasher` of a map type is `typehash` closed over the
+    key descriptor), every pair of well-formed images, every seed: if the key's `Equal` says true then `typehash` gives both
+    the same hash, does not panic and draws no `fastrand`.  Covers `TFlagRegularMemory` (flagged types have no padding, no
+    float, string or interface part: `regular_flat`), `±0`, strings behind different pointers, blank fields, nested
+    interfaces.  This is the hypothesis `HashOK.hash_eq` of C06's refinement theorems. -/
+theorem hash_respects_equal (K : Ty) (f : EqFn) (a b : Obj Ty) (hl : layoutOK K = true) (ha : fits K a = true) (hb : fits K b = true)
+    (hf : equalName K = some f) (he : callEq descOf f (descOf K) a b = .ok true) (seed : UInt64) (k : Nat) :
+    ∃ x, typehash descOf H rnd (descOf K) a seed k = .ok (x, k) ∧ typehash descOf H rnd (descOf K) b seed k = .ok (x, k) :=
+  hash_eq H rnd a K b f hl ha hb hf he seed k
+
+example : layoutOK (.basic .float64) = true ∧ fits (.basic .float64) (.bytes (leBytes 8 0)) = true ∧
+    fits (.basic .float64) (.bytes (leBytes 8 (2^63))) = true ∧ equalName (.basic .float64) = some .f64equal ∧
+    callEq descOf .f64equal (descOf (.basic .float64)) (.bytes (leBytes 8 0) : Obj Ty) (.bytes (leBytes 8 (2^63))) = .ok true :=
+  ⟨by decide, by decide, by decide, by decide, by rfl⟩
+
+/-- the `Hasher` of `map[K]V` (`typehash` closed over `K`'s descriptor) as a function of the seed and the key image -/
+def keyHash (K : Ty) (seed : UInt64) (a : Obj Ty) : UInt64 :=
+  match typehash descOf H rnd (descOf K) a seed 0 with
+  | .ok (x, _) => x
+  | .error _ => 0
+
+/-- **C06's `HashOK` for the real key equality and the real hasher**, over the well-formed key images of ANY comparable key
+    type `K` (so also `any`, interface types, structs and arrays with interface / float / string parts):
+    `keyEq` (= `K`'s `Equal` says true) implies equal `keyHash` under every seed (`HashOK.hash_eq`), and `keyEq` is symmetric and
+    transitive (`EqOK`; through the specification, hence for images without a blank-pointer direct dynamic type) -/
+theorem keyHash_respects_keyEq (K : Ty) (hc : comparable K = true) (hl : layoutOK K = true) (seed : UInt64) (a b : Obj Ty)
+    (ha : fits K a = true) (hb : fits K b = true) (h : keyEq K a b = true) :
+    keyHash H rnd K seed a = keyHash H rnd K seed b := by
+  rw [keyEq_iff] at h
+  have hs := equalName_isSome K
+  rw [hc] at hs
+  cases hf : equalName K with
+  | none => simp [hf] at hs
+  | some f =>
+    simp only [equalD, descOf_c, commonOf, hf] at h
+    obtain ⟨x, e1, e2⟩ := hash_eq H rnd a K b f hl ha hb hf h seed 0
+    simp [keyHash, e1, e2]
+
+theorem keyEq_equivalence (K : Ty) (hc : comparable K = true) :
+    (∀ a b : Obj Ty, fits K a = true → fits K b = true → okDyn a = true → okDyn b = true → keyEq K a b = true → keyEq K b a = true) ∧
+    (∀ a b c : Obj Ty, fits K a = true → fits K b = true → fits K c = true → okDyn a = true → okDyn b = true →
+      keyEq K a b = true → keyEq K b c = true → keyEq K a c = true) :=
+  ⟨fun a b ha hb hoa hob h => keyEq_symm K a b hc ha hb hoa hob h,
+   fun a b c ha hb hcc hoa hob h1 h2 => keyEq_trans K a b c hc ha hb hcc hoa hob h1 h2⟩
+
+example : comparable exStruct = true ∧ layoutOK exStruct = true ∧
+    fits exStruct (.seq (.cons [] (.bytes (leBytes 8 0)) (.cons [] (.str 1 [104, 105]) .nil)) [] : Obj Ty) = true ∧
+    keyEq exStruct (.seq (.cons [] (.bytes (leBytes 8 0)) (.cons [] (.str 1 [104, 105]) .nil)) [])
+      (.seq (.cons [] (.bytes (leBytes 8 (2^63))) (.cons [] (.str 2 [104, 105]) .nil)) []) = true :=
+  ⟨by decide, by decide, by decide, by rfl⟩
+
+/-- interface keys (`map[any]V`, `map[I]V`): `a == b` (as `EfaceEqual` decides it) implies equal `nilinterhash`/`interhash` -/
+theorem ifaceHash_respects_equal (v u : Obj Ty) (hv : fits (.iface 0 0) v = true) (hu : fits (.iface 0 0) u = true)
+    (he : efaceEqual descOf v u = .ok true) (seed : UInt64) (k : Nat) :
+    ∃ x, nilinterhash descOf H rnd v seed k = .ok (x, k) ∧ nilinterhash descOf H rnd u seed k = .ok (x, k) := by
+  rw [efaceEqual_eq_callEq (descOf (.iface 0 0)) v u] at he
+  have := hash_eq H rnd v (.iface 0 0) u .nilinterequal (by decide) hv hu (by simp [equalName]) he seed k
+  simpa [descOf, typehash_iface H rnd _ _ _ _ _ (show (commonOf (.iface 0 0)).regular = false by decide)] using this
+
+example : fits (.iface 0 0) (exVal 0 1) = true ∧ fits (.iface 0 0) (exVal (2^63) 2) = true ∧
+    efaceEqual descOf (exVal 0 1) (exVal (2^63) 2) = .ok true := ⟨by decide, by decide, by rfl⟩
+
+/-- **hashing a value of an uncomparable dynamic type panics** ("hash of unhashable type"), whatever the value -/
+theorem hash_unhashable_panics (tw : Nat) (t : Ty) (dw : UInt64) (box : Obj Ty) (hc : comparable t = false) (seed : UInt64) (k : Nat) :
+    nilinterhash descOf H rnd (.eface tw t dw box) seed k = .error .unhashable ∧
+      interhash descOf H rnd (.eface tw t dw box) seed k = .error .unhashable := by
+  have : (descOf t).c.equal = none := (equal_nil_iff_uncomparable t).2 hc
+  simp [interhash, nilinterhash, this]
+
+example : comparable (.struct 32 (.cons 1 0 (.basic .int) (.cons 2 8 (.slice 0) .nil))) = false := by decide
+
+/-- **hashing a key panics exactly when the key holds, in a non-blank position at any depth, an interface with an uncomparable
+    dynamic type** (`unhashable`, on the abstract value): for every comparable key type `K` and every well-formed key image,
+    `typehash` then panics with "hash of unhashable type", and otherwise returns a hash — it never fails for another reason -/
+theorem hash_panics_iff_unhashable (K : Ty) (hc : comparable K = true) (a : Obj Ty) (ha : fits K a = true) (seed : UInt64) (k : Nat) :
+    (unhashable K (valOf K a) = true → typehash descOf H rnd (descOf K) a seed k = .error .unhashable) ∧
+    (unhashable K (valOf K a) = false → ∃ x k', typehash descOf H rnd (descOf K) a seed k = .ok (x, k')) :=
+  ⟨(hash_total H rnd a K hc ha seed k).2, (hash_total H rnd a K hc ha seed k).1⟩
+
+/-- `struct{ x, y any }` -/
+def exPair : Ty := .struct 32 (.cons 1 0 (.iface 0 0) (.cons 2 16 (.iface 0 0) .nil))
+/-- `{x: int64(1), y: []int{…}}` -/
+def exPairBad : Obj Ty :=
+  .seq (.cons [] (.eface 0 (.basic .int64) 0 (.bytes (leBytes 8 1))) (.cons [] (.eface 0 (.slice 0) 0 (.bytes (leBytes 24 0))) .nil)) []
+
+example : comparable exPair = true ∧ fits exPair exPairBad = true ∧ unhashable exPair (valOf exPair exPairBad) = true := by decide
+
+end dyn
 
 end LlgoVerif.Types
